@@ -57,6 +57,12 @@ fn scenario(sc: &Value) -> Value {
     let pre: Vec<i64> = sc["pre"].as_array().map(|a| a.iter().filter_map(|x| x.as_i64()).collect()).unwrap_or_default();
     let consumers: Vec<String> = sc["consumer"].as_array().map(|a| a.iter().map(|x| x.as_str().unwrap_or("block_on").to_string()).collect()).unwrap_or_default();
     let n = msgs.len();
+    let delays: Vec<u64> = sc["delay"].as_array().map(|a| a.iter().map(|x| x.as_u64().unwrap_or(0)).collect()).unwrap_or_default();
+    // "burst": every conversion waits for all the others right before calling to_stream()
+    let burst = sc["burst"].as_bool().unwrap_or(false);
+    let conv_barrier = Arc::new(std::sync::Barrier::new(if burst { n } else { 1 }));
+    // set when the stream(s) without delay have been consumed completely
+    let target_done = Arc::new(std::sync::atomic::AtomicBool::new(false));
     verif::set_actor(0);
     verif::emit("h.scenario", &[("id", id), ("streams", n as i64)]);
     let results: Arc<Mutex<Vec<Value>>> = Arc::new(Mutex::new(Vec::new()));
@@ -67,8 +73,13 @@ fn scenario(sc: &Value) -> Value {
         let before = pre.get(s - 1).copied().unwrap_or(0).min(total);
         let consumer = consumers.get(s - 1).cloned().unwrap_or_else(|| "block_on".into());
         let results = results.clone();
+        let conv_barrier = conv_barrier.clone();
         // sender thread
         let (go_tx, go_rx) = std::sync::mpsc::channel::<()>();
+        let (conv_tx, conv_rx) = std::sync::mpsc::channel::<()>();
+        let delay = delays.get(s - 1).copied().unwrap_or(0);
+        let td_sender = target_done.clone();
+        let td_consumer = target_done.clone();
         threads.push(std::thread::spawn(move || {
             verif::set_actor(300 + s as i64);
             let mut rng = StdRng::seed_from_u64(seed * 1000 + s as u64);
@@ -80,6 +91,15 @@ fn scenario(sc: &Value) -> Value {
                 x += 1;
             }
             let _ = go_tx.send(());
+            if delay > 0 {
+                // stay idle (handle open, nothing sent) after the conversion until the undelayed stream has been
+                // consumed - or for `delay` ms at most: nothing but that stream's own traffic may be needed for it
+                let _ = conv_rx.recv();
+                let t0 = std::time::Instant::now();
+                while !td_sender.load(Ordering::SeqCst) && t0.elapsed() < Duration::from_millis(delay) {
+                    std::thread::sleep(Duration::from_millis(10));
+                }
+            }
             while x <= total {
                 jitter(&mut rng);
                 verif::emit("h.send", &[("s", s as i64), ("x", x)]);
@@ -97,10 +117,16 @@ fn scenario(sc: &Value) -> Value {
             verif::set_actor(400 + s as i64);
             let mut rng = StdRng::seed_from_u64(seed * 31 + s as u64);
             let _ = go_rx.recv();
-            jitter(&mut rng);
+            if burst {
+                conv_barrier.wait();
+            } else {
+                jitter(&mut rng);
+            }
             verif::emit("h.tostream", &[("s", s as i64)]);
             let mut stream = rx.to_stream();
             verif::emit("h.tostream.done", &[("s", s as i64)]);
+            let _ = conv_tx.send(());
+            let t_conv = std::time::Instant::now();
             let mut got: Vec<u64> = Vec::new();
             let mut ended = false;
             let mut stuck = false;
@@ -177,7 +203,11 @@ fn scenario(sc: &Value) -> Value {
                     ended = true;
                 },
             }
-            results.lock().unwrap().push(json!({"s": s, "got": got, "ended": ended, "stuck": stuck, "consumer": consumer}));
+            if delay == 0 {
+                td_consumer.store(true, Ordering::SeqCst);
+            }
+            results.lock().unwrap().push(json!({"s": s, "got": got, "ended": ended, "stuck": stuck, "consumer": consumer,
+                                                "elapsed_ms": t_conv.elapsed().as_millis() as u64}));
         }));
     }
     let mut hang = false;
